@@ -7,4 +7,6 @@ require (
 	pgregory.net/rapid v1.3.0
 )
 
+require golang.org/x/crypto v0.31.0 // indirect
+
 replace github.com/WICG/webpackage => /repo
